@@ -3,7 +3,7 @@
    negotiated framing mode.  The correspondence run drives a real Connection against a scripted peer, compares the
    bytes the peer received with this model, and has an independent reader of the protocol parse them. *)
 From EDP Require Import Base.Bytes Term.Term Gen.Tags Gen.ControlTable Gen.DecoderArms Codec.Encode Codec.Decode Codec.Norm
-  Dist.Control Dist.Framing Dist.Receive Dist.Send Dist.SendFacts.
+  Dist.Control Dist.Framing Dist.Receive Dist.Send Dist.SendFacts Conc.Interleave Gen.LockScope.
 
 (* one operation, one frame: the length prefix of the body, then the body *)
 Theorem C07_one_frame : forall negotiated order op f, send_frame negotiated order op = Some f ->
@@ -46,6 +46,28 @@ Theorem C07_pass_through_content : forall cfg st negotiated order op, uses_pass_
   exists body, frame_body negotiated order op = Some body /\
     handle_frame cfg st body = (st, to_outcome (norm ctl) (option_map norm (snd (control_of op)))).
 Proof. exact pass_through_frame. Qed.
+
+(* concurrent senders: every send-side operation of the node acquires the connection's lock before its first write
+   and still holds it after its last (checked on the source by the translator, Gen/LockScope.v) ... *)
+Theorem C07_operations_hold_the_lock : forallb snd lock_sites = true.
+Proof. vm_compute. reflexivity. Qed.
+
+(* ... and under that discipline, for EVERY schedule of any number of tasks, with each operation split into any number
+   of partial writes, the bytes on the wire are whole frames one after the other (then a prefix of the frame in
+   progress), and each task's frames appear in the order it issued them, each exactly once *)
+Theorem C07_frames_never_interleave : forall (prog : list (list (list bytes))) schedule,
+  exists (whole : list (list bytes)) (partial rest : list bytes),
+    trace bytes (run bytes (start bytes prog) schedule) = concat whole ++ partial /\
+    match holder bytes (run bytes (start bytes prog) schedule) with None => partial = [] | Some (_, r) => r = rest end.
+Proof. exact (never_interleaved bytes). Qed.
+
+Theorem C07_per_task_order : forall (prog : list (list (list bytes))) schedule,
+  exists g, (forall i, ops_of bytes i g ++ nth i (todo bytes (run bytes (start bytes prog) schedule)) [] = nth i prog []) /\
+    match holder bytes (run bytes (start bytes prog) schedule) with
+    | None => trace bytes (run bytes (start bytes prog) schedule) = concat (map snd g)
+    | Some _ => True
+    end.
+Proof. exact (program_order bytes). Qed.
 
 Example C07_example :
   let p := {| pnode := [110; 64; 104]; pnum := 1; pserial := 2; pcreation := 3; ploc := None |} in
